@@ -57,7 +57,7 @@ def body(run):
         d = run.work / f'h{hi}'
         (d / 'in').mkdir(parents=True)
         (d / 'out').mkdir()
-        g, pair, mbm, _ = fz.workable_pair(d / 'in', rng, lambda r: synth.aligned_geom(r, 30), (5, 5), 4, tag='i')
+        g, pair, mbm, _ = fz.workable_pair(d / 'in', rng, lambda r: synth.aligned_geom(r, 30), (9, 9), 4, tag='i')      # (room for the 5-row kernels' overlap + 1 with partial masking)
         corr, param = d / 'out' / 'corr.tif', d / 'out' / 'corr_PARAM.tif'
         # pre-seed: nothing / junk bytes / a valid older product of another model
         pre = rng.choice(['none', 'corr-junk', 'param-junk', 'both-junk', 'old-product', 'old-product', 'corr-empty', 'param-empty'])
